@@ -319,4 +319,20 @@ theorem rescanWalk_last : ∀ (done live new : List CNode) (m : Bool) (sec : Lis
     have := ih sec h
     rw [this, List.append_assoc]; rfl
 
+/-- the same section again: no hook runs, the module is shown nothing -/
+theorem rescanWalk_same : ∀ (l done : List CNode), rescanWalk done l l false = []
+  | [], done => by unfold rescanWalk; simp
+  | t :: ts, done => by
+    unfold rescanWalk
+    have hk : cnodeEqKey t t = true := by
+      unfold cnodeEqKey
+      have : Bytes.strcasecmp t.name t.name = 0 := by
+        generalize t.name = x
+        induction x with
+        | nil => rfl
+        | cons a as ih => simp [Bytes.strcasecmp, ih]
+      simp [this]
+    simp only [hk, if_true, bne_self_eq_false, Bool.and_false, Bool.or_false, Bool.false_eq_true, if_false, List.nil_append]
+    exact rescanWalk_same ts (done ++ [t])
+
 end Iauthd.Proto
